@@ -244,3 +244,194 @@ Proof.
   - unfold vrest. destruct (lview z q) eqn:E1; [eapply Hm; eauto|].
     destruct (lview z (closest_encloser (lview z) q ++ [wild_label])) eqn:E2; [eapply Hm; eauto|simpl; discriminate].
 Qed.
+
+(* ------------------------------------------------------------------ accepted record lists and the builder *)
+(* Zonefile::insert keeps the tables well formed; what it cannot see is a
+   delegation without NS (DS only) and a CNAME at the apex: exactly these make
+   TryFrom<Zonefile> for ZoneBuilder fail (MissingNs, CnameAtApex). *)
+Definition buildable (zf : zonefile) : bool :=
+  forallb (fun e => match fst (snd e) with Some _ => true | None => false end) (zf_cuts zf)
+  && forallb (fun e => negb (is_apex (fst e))) (zf_cnames zf).
+
+Definition zinv (zf : zonefile) : bool :=
+  nodupb (map fst (zf_normal zf)) && nodupb (map fst (zf_cuts zf)) && nodupb (map fst (zf_cnames zf))
+  && forallb wf_normal (zf_normal zf)
+  && forallb (fun e => negb (is_apex (fst e))) (zf_cuts zf)
+  && forallb (fun e => negb (existsb (name_eqb (fst e)) (map fst (zf_cuts zf)))) (zf_cnames zf).
+
+Lemma alookup_none_iff {A} p (L : list (name * A)) : alookup p L = None <-> existsb (name_eqb p) (map fst L) = false.
+Proof.
+  induction L as [|[k v] L IH]; simpl; [tauto|]. rewrite (name_eqb_sym p k).
+  destruct (name_eqb k p); simpl; [split; discriminate|exact IH].
+Qed.
+
+Lemma aupsert_keys {A} k (d : A) f l :
+  map fst (aupsert k d f l) = if existsb (name_eqb k) (map fst l) then map fst l else map fst l ++ [k].
+Proof.
+  induction l as [|[k' v] l IH]; simpl; [reflexivity|]. rewrite (name_eqb_sym k k').
+  destruct (name_eqb k' k) eqn:E; simpl; [reflexivity|]. rewrite IH. destruct (existsb (name_eqb k) (map fst l)); reflexivity.
+Qed.
+
+Lemma nodupb_snoc l k : nodupb (l ++ [k]) = nodupb l && negb (existsb (name_eqb k) l).
+Proof.
+  induction l as [|x l IH]; simpl; [reflexivity|].
+  change (nodupb (x :: l ++ [k])) with (negb (existsb (name_eqb x) (l ++ [k])) && nodupb (l ++ [k])).
+  change (nodupb (x :: l)) with (negb (existsb (name_eqb x) l) && nodupb l).
+  rewrite IH, existsb_app. simpl. rewrite orb_false_r, (name_eqb_sym k x).
+  destruct (existsb (name_eqb x) l), (name_eqb x k), (nodupb l), (existsb (name_eqb k) l); reflexivity.
+Qed.
+
+Lemma aupsert_nodup {A} k (d : A) f l : nodupb (map fst l) = true -> nodupb (map fst (aupsert k d f l)) = true.
+Proof.
+  intro H. rewrite aupsert_keys. destruct (existsb (name_eqb k) (map fst l)) eqn:E; [exact H|].
+  rewrite nodupb_snoc, H, E. reflexivity.
+Qed.
+
+Lemma aupsert_forall {A} (P : name * A -> bool) k (d : A) f l :
+  forallb P l = true -> (forall k' v, P (k', v) = true -> P (k', f v) = true) -> P (k, f d) = true ->
+  forallb P (aupsert k d f l) = true.
+Proof.
+  intros H Hf Hd. induction l as [|[k' v] l IH]; simpl; [rewrite Hd; reflexivity|].
+  simpl in H. apply andb_true_iff in H. destruct H as [H1 H2].
+  destruct (name_eqb k' k) eqn:E; simpl.
+  - rewrite Hf by exact H1. exact H2.
+  - rewrite H1. apply IH. exact H2.
+Qed.
+
+Lemma nodup_types_snoc l r : nodup_types l = true -> existsb (fun x => rs_type x =? rs_type r) l = false ->
+  nodup_types (l ++ [r]) = true.
+Proof.
+  induction l as [|x l IH]; simpl; [reflexivity|]. intros H Hn.
+  apply andb_true_iff in H. destruct H as [A B]. apply orb_false_iff in Hn. destruct Hn as [N1 N2].
+  rewrite existsb_app. simpl. rewrite (N.eqb_sym (rs_type r) (rs_type x)), N1, orb_false_r, A. apply IH; auto.
+Qed.
+
+Lemma normal_insert_wf o t ttl d l : (l = [] \/ wf_normal (o, l) = true) -> wf_normal (o, normal_insert t ttl d l) = true.
+Proof.
+  unfold wf_normal, normal_insert. cbn [snd]. intro H.
+  destruct (get_rrset t l) as [r|] eqn:E.
+  - destruct H as [H|H]; [subst; discriminate|].
+    apply andb_true_iff in H. destruct H as [H H3]. apply andb_true_iff in H. destruct H as [H1 H2].
+    pose proof (get_rrset_type _ _ _ E) as Ht.
+    assert (G : forall l0, get_rrset t l0 = Some r -> nodup_types l0 = true -> forallb wf_rrset l0 = true ->
+              nodup_types (set_rrset (push_record ttl d r) l0) = true /\ forallb wf_rrset (set_rrset (push_record ttl d r) l0) = true /\
+              set_rrset (push_record ttl d r) l0 <> [] /\
+              forall y, existsb (fun x => rs_type x =? rs_type y) (set_rrset (push_record ttl d r) l0) = existsb (fun x => rs_type x =? rs_type y) l0).
+    { induction l0 as [|x l0 IH0]; simpl; [discriminate|]. intros Hg Hn Hw.
+      apply andb_true_iff in Hn. destruct Hn as [Hn1 Hn2]. apply andb_true_iff in Hw. destruct Hw as [Hw1 Hw2].
+      destruct (rs_type x =? t) eqn:Ex.
+      - inversion Hg; subst x. cbn [push_record rs_type]. rewrite N.eqb_refl. simpl. rewrite Hn1, Hn2, Hw2.
+        repeat split; try congruence. unfold wf_rrset. simpl. destruct (rs_data r); reflexivity.
+      - cbn [push_record rs_type]. rewrite Ht, Ex. destruct (IH0 Hg Hn2 Hw2) as (A1 & A2 & A3 & A4).
+        simpl. rewrite A1, A2, Hw1, (A4 x), Hn1. repeat split; try congruence. intro y. rewrite A4. reflexivity. }
+    destruct (G l E H1 H3) as (A1 & A2 & A3 & _). rewrite A1, A2. destruct (set_rrset _ l); [congruence|reflexivity].
+  - assert (Hnew : existsb (fun x => rs_type x =? t) l = false).
+    { clear H. induction l as [|x l IH0]; simpl in *; [reflexivity|]. destruct (rs_type x =? t); [discriminate|]. apply IH0. exact E. }
+    assert (Hl : nodup_types l = true /\ forallb wf_rrset l = true).
+    { destruct H as [H|H]; [subst; auto|]. apply andb_true_iff in H. destruct H as [H H3]. apply andb_true_iff in H. tauto. }
+    destruct Hl as [H1 H3].
+    assert (G : nodup_types (l ++ [mkRrset t ttl [d]]) = true) by (apply nodup_types_snoc; auto).
+    rewrite G, forallb_app, H3. simpl. destruct l; reflexivity.
+Qed.
+
+Lemma zinv_insert g zf zf' : zinv zf = true -> zf_insert g zf = Ok zf' -> zinv zf' = true.
+Proof.
+  unfold zinv. intro H. repeat (apply andb_true_iff in H; destruct H as [H ?]).
+  rename H into HN, H4 into HC, H3 into HA, H2 into HwN, H1 into HwC, H0 into HwA.
+  unfold zf_insert. destruct g as [og tg ttl d]. cbn [g_owner g_type g_ttl g_data].
+  destruct (((tg =? rt_ns) || (tg =? rt_ds)) && negb (is_apex og)) eqn:Ecut.
+  - apply andb_true_iff in Ecut. destruct Ecut as [_ Eap].
+    assert (Hres : alookup og (zf_cnames zf) = None ->
+      forall F, zinv (mkZf (zf_normal zf) (aupsert og (None, None) F (zf_cuts zf)) (zf_cnames zf)) = true).
+    { intros Hno F. unfold zinv. cbn [zf_normal zf_cuts zf_cnames]. rewrite HN, HA, HwN, (aupsert_nodup og _ F _ HC). simpl.
+      apply andb_true_iff. split.
+      - apply aupsert_forall; auto.
+      - rewrite aupsert_keys. apply alookup_none_iff in Hno.
+        rewrite forallb_forall in *. intros e He. specialize (HwA e He). apply negb_true_iff in HwA. apply negb_true_iff.
+        destruct (existsb (name_eqb og) (map fst (zf_cuts zf))); [exact HwA|].
+        rewrite existsb_app, HwA. simpl. rewrite orb_false_r.
+        destruct (name_eqb (fst e) og) eqn:E; [|reflexivity]. apply name_eqb_eq in E.
+        assert (Hin : existsb (name_eqb og) (map fst (zf_cnames zf)) = true).
+        { apply existsb_exists. exists (fst e). split; [apply in_map; exact He|rewrite E; apply name_eqb_refl]. }
+        congruence. }
+    destruct (alookup og (zf_normal zf)) as [rsn|].
+    + destruct (existsb _ rsn); [discriminate|]. destruct (alookup og (zf_cnames zf)) eqn:Ea; [discriminate|].
+      intro Hz. injection Hz as Hz. subst zf'. apply Hres. reflexivity.
+    + destruct (alookup og (zf_cnames zf)) eqn:Ea; [discriminate|].
+      intro Hz. injection Hz as Hz. subst zf'. apply Hres. reflexivity.
+  - destruct (tg =? rt_cname).
+    + destruct (alookup og (zf_normal zf)); [discriminate|]. destruct (alookup og (zf_cuts zf)) eqn:Ec; [discriminate|].
+      destruct (alookup og (zf_cnames zf)) eqn:Ea; [discriminate|]. intro Hz. injection Hz as Hz. subst zf'.
+      unfold zinv. cbn [zf_normal zf_cuts zf_cnames]. rewrite HN, HC, HwN, HwC. simpl.
+      rewrite map_app. change (map fst [(og, mkRr ttl d)]) with [og]. rewrite nodupb_snoc, HA. apply alookup_none_iff in Ea. rewrite Ea. cbn [negb andb].
+      rewrite forallb_app, HwA. simpl. apply alookup_none_iff in Ec. rewrite Ec. reflexivity.
+    + destruct (if is_glue tg then None else alookup og (zf_cuts zf)); [discriminate|].
+      destruct (alookup og (zf_cnames zf)); [discriminate|]. intro Hz. injection Hz as Hz. subst zf'.
+      unfold zinv. cbn [zf_normal zf_cuts zf_cnames]. rewrite HC, HA, HwC, HwA, (aupsert_nodup og _ _ _ HN). simpl.
+      rewrite !andb_true_r. apply aupsert_forall; [exact HwN| |].
+      * intros k' v Hv. apply normal_insert_wf. right. exact Hv.
+      * apply normal_insert_wf. left. reflexivity.
+Qed.
+
+Lemma zinv_of_records : forall rs, accepted rs = true -> zinv (zf_of_records rs) = true.
+Proof.
+  intro rs. pattern rs. apply rev_ind; clear rs; [reflexivity|].
+  intros g rs IH Hacc. unfold accepted in Hacc. apply accepted_from_app in Hacc. destruct Hacc as [Hacc [zf' Hins]].
+  rewrite zf_of_records_snoc. unfold zf_of_records at 1. rewrite Hins.
+  eapply zinv_insert; [apply IH; exact Hacc|exact Hins].
+Qed.
+
+Lemma forallb_and {A} (a b : A -> bool) l : forallb (fun e => a e && b e) l = forallb a l && forallb b l.
+Proof. induction l; simpl; auto. rewrite IHl. destruct (a a0), (b a0), (forallb a l), (forallb b l); reflexivity. Qed.
+
+Lemma zinv_wf zf : zinv zf = true -> wf_zone zf = buildable zf.
+Proof.
+  unfold zinv, wf_zone, buildable. intro H. repeat (apply andb_true_iff in H; destruct H as [H ?]).
+  rewrite H, H4, H3. change (forallb _ (zf_normal zf)) with (forallb wf_normal (zf_normal zf)). rewrite H2.
+  rewrite !forallb_and, H1, H0. simpl. rewrite andb_true_r. reflexivity.
+Qed.
+
+(* the conversion to a ZoneBuilder fails exactly for unbuildable tables *)
+Lemma zf_build_ok zf : forallb (fun e => negb (is_apex (fst e))) (zf_cuts zf) = true -> snd (zf_build zf) = buildable zf.
+Proof.
+  intro Hc. rewrite zf_build_unfold. unfold buildable.
+  assert (G3 : forall N acc, snd (fold_left F3 N acc) = snd acc).
+  { induction N as [|e N IH]; intros [z ok]; simpl; auto. rewrite IH. reflexivity. }
+  assert (G2 : forall A acc, snd (fold_left F2 A acc) = snd acc && forallb (fun e => negb (is_apex (fst e))) A).
+  { induction A as [|[o c] A IH]; intros [z ok]; simpl; [rewrite andb_true_r; reflexivity|].
+    destruct o; simpl; rewrite IH; simpl; [rewrite andb_false_r; reflexivity|reflexivity]. }
+  assert (G1 : forall G C acc, forallb (fun e => negb (is_apex (fst e))) C = true ->
+             snd (fold_left (F1 G) C acc) = snd acc && forallb (fun e => match fst (snd e) with Some _ => true | None => false end) C).
+  { induction C as [|[o [ns ds]] C IH]; intros [z ok] H; simpl; [rewrite andb_true_r; reflexivity|].
+    simpl in H. apply andb_true_iff in H. destruct H as [Ho H].
+    destruct ns as [ns|]; simpl.
+    - destruct o; [discriminate|]. simpl. rewrite IH by exact H. reflexivity.
+    - rewrite IH by exact H. simpl. rewrite andb_false_r. reflexivity. }
+  rewrite G3, G2, G1 by exact Hc. reflexivity.
+Qed.
+
+(* an accepted record list: well formed content iff buildable, the builder
+   conversion succeeds iff buildable, and then the zone answers by the spec of
+   its grouped records *)
+Theorem accepted_records_build rs : accepted rs = true ->
+  wf_zone (zf_of_records rs) = buildable (zf_of_records rs) /\
+  snd (zf_build (zf_of_records rs)) = buildable (zf_of_records rs) /\
+  (buildable (zf_of_records rs) = true ->
+     forall q qt, query (build rs) q qt = spec (zf_of_records rs) q qt).
+Proof.
+  intro Ha. pose proof (zinv_of_records rs Ha) as Hi.
+  split; [apply zinv_wf; exact Hi|]. split.
+  - apply zf_build_ok. unfold zinv in Hi. repeat (apply andb_true_iff in Hi; destruct Hi as [Hi ?]). assumption.
+  - intros Hb q qt. apply build_answers_spec. rewrite zinv_wf by exact Hi. exact Hb.
+Qed.
+
+(* the two ways an accepted list fails at build *)
+Example unbuildable_examples :
+  accepted [mkG [371] rt_ds 120 (mkRd 6 None)] = true /\ buildable (zf_of_records [mkG [371] rt_ds 120 (mkRd 6 None)]) = false /\
+  accepted [mkG [] rt_cname 5 (mkRd 1 None)] = true /\ buildable (zf_of_records [mkG [] rt_cname 5 (mkRd 1 None)]) = false /\
+  buildable (zf_of_records ex_records) = true.
+Proof. repeat split; reflexivity. Qed.
+
+(* T1 constants that the flat side relies on *)
+Lemma glue_types_are_addresses : glue_types = [rt_a; rt_aaaa]. Proof. reflexivity. Qed.
+Lemma wildcard_is_asterisk : wild_label = 256 + 42. Proof. reflexivity. Qed.
